@@ -69,9 +69,13 @@ def same_snapshot(tracks, snap):
     return True
 
 
-def rand_tracks(rng, skip_checks):
+def rand_tracks(rng, skip_checks, allow_huge=True):
     ntr = rng.choice((0, 1, 2, 2, 3, 4, 6))
     floats = rng.random() < 0.2
+    # long pieces: every delta fits a file (< 2**28) but positions grow beyond 2**28, 2**31, 2**32; and
+    # abstract tracks with astronomically large integer deltas
+    huge = None if floats or not allow_huge or rng.random() > 0.15 else rng.choice(((0, 1, 2 ** 27, 200000000, 2 ** 28 - 1),
+                                                                 (0, 2 ** 28 - 1, 2 ** 31, 2 ** 32 + 1, 2 ** 40, 10 ** 18)))
     tracks = []
     for _ in range(ntr):
         eot = rng.choice(('end', 'absent', 'repeated', 'mid', 'end'))
@@ -82,6 +86,8 @@ def rand_tracks(rng, skip_checks):
             d = rng.choice((0, 0, 0, 1, 1, 127, 128, 10 ** 6))
             if floats:
                 d = rng.choice((0, 0.5, 0.25, 1.0, 3.75, 1024.125))
+            if huge:
+                d = rng.choice(huge)
             if m.type == 'end_of_track':
                 d = rng.choice((0, 0, 5, 1000)) if not floats else rng.choice((0, 0.5, 8.0))
             m.time = d
@@ -216,7 +222,8 @@ def big_merge_case(ctx, seed, total):
 def nested_merge_case(ctx, seed):
     """The tracks handed to merge_tracks are produced lazily and call merge_tracks themselves."""
     rng = random.Random(seed)
-    groups = [rand_tracks(rng, False)[:3] for _ in range(rng.randrange(2, 4))]
+    # (no huge integer deltas here: the groups may mix float and integer deltas, and 10**18 + 0.5 is not a float)
+    groups = [rand_tracks(rng, False, allow_huge=False)[:3] for _ in range(rng.randrange(2, 4))]
     groups = [[MidiTrack(m for m in tr if getattr(m, 'note', 0) != 300) for tr in g] for g in groups]
     case = {'kind': 'nested-merge', 'seed': seed}
     try:
